@@ -245,6 +245,16 @@ def d4_4(ctx):
     L = lin(asg[0].value) if asg else None
     want = Lin(0, {"self.connection_size": 1, "len(request.message)": -1, "len(request.value)": 1})
     ctx.check(L == want, ckey(fn, "segment-size"), asg[0] if asg else f, "segment size = connection size - per-fragment overhead", f"segment size is `{L}`; expected `{want}`: fragments would exceed the connection size or waste it", got=repr(L))
+    from .common import fragment_size_redefinitions
+
+    for i, (verdict, node, msg) in enumerate(fragment_size_redefinitions(ctx, fn)):
+        k = ckey(fn, f"segment-size-redefined{i}")
+        if verdict == "ok":
+            ctx.ok(k, node, msg)
+        elif verdict == "violation":
+            ctx.violation(k, node, msg)
+        else:
+            ctx.undecided(k, node, msg)
     g = ctx.cfg(f)
     built = [n for n in g.nodes if n.kind == "stmt" and n.ast is not None and any(isinstance(c, ast.Call) and attr_path(c.func) == "request.build_message" for c in walk(n.ast))]
     an = g.nodes_of(asg[0])[0] if asg and g.nodes_of(asg[0]) else None
